@@ -459,3 +459,45 @@ Proof.
   cbn [bind]. destruct (decrypt_jwe v party prot E); try discriminate. cbn [bind].
   intros H; inversion H; reflexivity.
 Qed.
+
+(* ---------- the harness's mutation vocabulary stays inside the theorems' hypothesis ---------- *)
+Section Covered.
+  Variable adv : N -> bool.
+  Variable hs : list henv.
+
+  (* a recipient entry whose encrypted key is that of some entry of an honest wire (header arbitrary), or is no wrap *)
+  Definition mut_rcp (rc : rcp) : Prop :=
+    (exists h w i, In h hs /\ hpack h = Ok w /\ r_ek rc = r_ek (R w i)) \/ is_wrap (r_ek rc) = false.
+
+  (* envelopes reachable from honest ones by the mutation grammar: any protected header / aad / iv / ciphertext /
+     tag, any recipients array of such entries (reorder, drop, duplicate, splice from another envelope, insert
+     junk entries, edit any header), re-encryption under any key *)
+  Inductive mut_jwe : jwe -> Prop :=
+  | MJ_honest h j : In h hs -> hpack h = Ok (WJwe j) -> mut_jwe j
+  | MJ_prot p E : mut_jwe E -> mut_jwe (set_prot p E)
+  | MJ_aad t E : mut_jwe E -> mut_jwe (set_aad t E)
+  | MJ_iv t E : mut_jwe E -> mut_jwe (set_iv t E)
+  | MJ_ct t E : mut_jwe E -> mut_jwe (set_ct t E)
+  | MJ_tag t E : mut_jwe E -> mut_jwe (set_tag t E)
+  | MJ_recs rs E : mut_jwe E -> Forall mut_rcp rs -> mut_jwe (set_recs rs E)
+  | MJ_reenc cek m E : mut_jwe E -> mut_jwe (reenc_jwe cek m E).
+
+  Lemma R_ek_ok h w i : In h hs -> hpack h = Ok w -> ek_ok adv hs (r_ek (R w i)).
+  Proof.
+    intros Hin Hp. unfold R. destruct (nth_in_or_default i (j_recs (J w)) (mkrcp None (Junk 0))) as [Hn|Hn].
+    - destruct w as [j|l|]; cbn [J] in *; [|destruct Hn|destruct Hn].
+      left. exists h, j. split; [assumption|]. split; [assumption|]. apply in_map. assumption.
+    - rewrite Hn. right. right. left. reflexivity.
+  Qed.
+
+  Lemma mutations_covered_lemma E : mut_jwe E -> wf_jwe adv hs E.
+  Proof.
+    induction 1 as [h j Hin Hp| | | | | |rs E _ _ HF|]; try assumption.
+    - unfold wf_jwe. rewrite Forall_forall. intros rc Hrc. left. exists h, j.
+      split; [assumption|]. split; [assumption|]. apply in_map. assumption.
+    - unfold wf_jwe. cbn [set_recs j_recs]. eapply Forall_impl; [|exact HF].
+      intros rc [[h [w [i [Hin [Hp He]]]]]|Hn].
+      + rewrite He. eapply R_ek_ok; eassumption.
+      + right. right. left. assumption.
+  Qed.
+End Covered.
